@@ -1,11 +1,13 @@
 use crate::{
     context,
-    util::{Compact, TimeUntil},
+    util::{Compact, TimeUntil, MAX_DEADLINE_TIMEOUT},
 };
 use fnv::FnvHashMap;
+use futures::ready;
 use std::{
     collections::hash_map,
     task::{Context, Poll},
+    time::Duration,
 };
 use tokio::sync::oneshot;
 use tokio_util::time::delay_queue::{self, DelayQueue};
@@ -34,6 +36,9 @@ struct RequestData<Res> {
     response_completion: oneshot::Sender<Res>,
     /// The key to remove the timer for the request's deadline.
     deadline_key: delay_queue::Key,
+    /// How much of the time until the deadline the timer has not been armed with yet. Nonzero
+    /// only for deadlines further away than [`MAX_DEADLINE_TIMEOUT`].
+    deadline_remainder: Duration,
 }
 
 /// An error returned when an attempt is made to insert a request with an ID that is already in
@@ -70,16 +75,15 @@ impl<Res> InFlightRequests<Res> {
     ) -> Result<(), AlreadyExistsError> {
         match self.request_data.entry(request_id) {
             hash_map::Entry::Vacant(vacant) => {
-                let timeout = ctx
-                    .deadline
-                    .time_until()
-                    .min(crate::util::MAX_DEADLINE_TIMEOUT);
+                let time_until_deadline = ctx.deadline.time_until();
+                let timeout = time_until_deadline.min(MAX_DEADLINE_TIMEOUT);
                 let deadline_key = self.deadlines.insert(request_id, timeout);
                 vacant.insert(RequestData {
                     ctx,
                     span,
                     response_completion,
                     deadline_key,
+                    deadline_remainder: time_until_deadline - timeout,
                 });
                 Ok(())
             }
@@ -134,15 +138,27 @@ impl<Res> InFlightRequests<Res> {
         cx: &mut Context,
         expired_error: impl Fn() -> Res,
     ) -> Poll<Option<u64>> {
-        self.deadlines.poll_expired(cx).map(|expired| {
-            let request_id = expired?.into_inner();
+        loop {
+            let request_id = match ready!(self.deadlines.poll_expired(cx)) {
+                Some(expired) => expired.into_inner(),
+                None => return Poll::Ready(None),
+            };
+            if let Some(request_data) = self.request_data.get_mut(&request_id) {
+                if !request_data.deadline_remainder.is_zero() {
+                    // The timer was armed with a clamped timeout: arm it with the rest.
+                    let timeout = request_data.deadline_remainder.min(MAX_DEADLINE_TIMEOUT);
+                    request_data.deadline_remainder -= timeout;
+                    request_data.deadline_key = self.deadlines.insert(request_id, timeout);
+                    continue;
+                }
+            }
             if let Some(request_data) = self.request_data.remove(&request_id) {
                 let _entered = request_data.span.enter();
                 tracing::error!("DeadlineExceeded");
                 self.request_data.compact(0.1);
                 let _ = request_data.response_completion.send(expired_error());
             }
-            Some(request_id)
-        })
+            return Poll::Ready(Some(request_id));
+        }
     }
 }
